@@ -335,7 +335,7 @@ ST = "xeofs/preprocessing/stacker.py"
 PR = "xeofs/preprocessing/preprocessor.py"
 M("C17", "dimension validator removed from Scaler.transform", SC, '        self._verify_input(X, "X")\n        self._verify_dims(X)\n', '        self._verify_input(X, "X")\n', "GUARD.dims")
 M("C17", "dimension validator after first arithmetic", SC, '        self._verify_dims(X)\n\n        params = self.get_params()\n\n        if params["with_center"]:\n            X = X - self.mean_\n', '        params = self.get_params()\n\n        if params["with_center"]:\n            X = X - self.mean_\n        self._verify_dims(X)\n', "GUARD.dims")
-M("C17", "stacker coordinate check not called", ST, "        self._validate_transform_feature_coords(X)\n\n        # Stack data", "        # Stack data", "GUARD.role.feature_coords.called")
+M("C17", "stacker coordinate check not called", ST, "        self._validate_transform_feature_coords(X)\n\n        # Bring a Dataset", "        # Bring a Dataset", "GUARD.role.feature_coords.called")
 M("C17", "stacker coordinate check never raises", ST, "        if not all(coords_are_equal):\n            raise ValueError(\n                \"Data to be transformed has different coordinates than the data used to fit.\"\n            )", "        if not all(coords_are_equal):\n            pass", "GUARD.role.feature_coords")
 M("C17", "rank check removed", DEC, "        if self.n_modes_precompute > rank:\n            raise ValueError(\n                f\"n_modes must be less than or equal to the rank of the dataset (rank = {rank}).\"\n            )\n", "", "GUARD.role.rank")
 M("C17", "alpha check removed", WH, "        if alpha < 0:\n            raise ValueError(\"`alpha` must be greater than or equal to 0\")\n", "", "GUARD.role.alpha")
@@ -548,3 +548,27 @@ M("C12", "rotator reads the compute switch from the metadata dict", ER, '       
 M("C14", "rotator reads the compute switch from the metadata dict", ER, '            compute=self._params["compute"],\n            **promax_kwargs,', '            compute=self.attrs["compute"],\n            **promax_kwargs,', "HIST.attrs.read")
 B("C14", "rotator reads a number from the metadata dict", ER, '        rtol = self._params.get("rtol")\n', '        rtol = self.attrs["rtol"]\n')
 M("C06", "rotator counts the samples the sanitizer saw", ER, '        n_samples = model.data["input_data"].coords[self.sample_name].size\n', "        n_samples = self.preprocessor.sanitizer.transformers[0].sample_coords.size\n", "REINSERT.count")
+M("C06", "fitted mean is NaN at entirely missing features", SC, "            self.mean_: DataVar = X.mean(self.sample_dims).fillna(0)\n", "            self.mean_: DataVar = X.mean(self.sample_dims)\n", "GUARD.features.unmasked")
+B("C06", "fitted mean filled through where", SC, "            self.mean_: DataVar = X.mean(self.sample_dims).fillna(0)\n", "            m = X.mean(self.sample_dims)\n            self.mean_: DataVar = m.where(m.notnull(), 0)\n")
+
+# ---------------------------------------------------------------- round 9
+M("C02", "feature coordinates compared as sets", ST, "            X.coords[dim].equals(self.coords_in[dim]) for dim in feature_dims\n", "            X.indexes[dim].symmetric_difference(self.coords_in[dim].to_index()).empty\n            for dim in feature_dims\n", "MIRROR.state.stack.transform_coords")
+M("C17", "feature coordinates compared as sets", ST, "            X.coords[dim].equals(self.coords_in[dim]) for dim in feature_dims\n", "            X.indexes[dim].symmetric_difference(self.coords_in[dim].to_index()).empty\n            for dim in feature_dims\n", "GUARD.role.feature_coords.ordered")
+B("C17", "feature coordinates compared with identical", ST, "            X.coords[dim].equals(self.coords_in[dim]) for dim in feature_dims\n", "            X.coords[dim].identical(self.coords_in[dim]) for dim in feature_dims\n")
+M("C07", "transform stacks in the order of the incoming dimensions", ST, "        feature_dims = self.dims_mapping[self.feature_name]\n        da: DataArray = self._stack(", "        feature_dims = tuple(dim for dim in X.dims if dim not in sample_dims)\n        da: DataArray = self._stack(", "LAYOUT.stack.transform_dims")
+M("C03", "Hilbert cross model takes the real part before un-whitening", CP, '    def _augment_data(self, X: DataArray, Y: DataArray) -> tuple[DataArray, DataArray]:\n        """Augment the data with the Hilbert transform."""', '    def _inverse_transform_algorithm(self, X=None, Y=None):\n        results = super()._inverse_transform_algorithm(X, Y)\n        return {key: rec.real for key, rec in results.items()}\n\n    def _augment_data(self, X: DataArray, Y: DataArray) -> tuple[DataArray, DataArray]:\n        """Augment the data with the Hilbert transform."""', "MIRROR.real.last")
+M("C08", "std floor relative to the largest std", SC, "            self.std_: DataVar = (\n                X.std(self.sample_dims).clip(min=np.finfo(np.float32).eps).fillna(1)\n            )\n", "            std: DataVar = X.std(self.sample_dims)\n            floor = np.finfo(np.float32).eps * std.max().clip(min=1.0)\n            self.std_: DataVar = std.clip(min=floor).fillna(1)\n", "WIRE.stats.bound")
+B("C08", "std floor through a named constant", SC, "            self.std_: DataVar = (\n                X.std(self.sample_dims).clip(min=np.finfo(np.float32).eps).fillna(1)\n            )\n", "            floor = np.finfo(np.float32).eps\n            self.std_: DataVar = X.std(self.sample_dims).clip(min=floor).fillna(1)\n")
+M("C09", "whitener covariance through np.cov", WH, "        nc = X.shape[0]\n        C = X.conj().T @ X / nc\n", "        C = np.atleast_2d(np.cov(X, rowvar=False, ddof=0))\n", "WHITEN.rebuild.gram")
+M("C02", "dataset unstack renames the sample dimension unconditionally", ST, "        if has_only_one_sample_dim and sample_name in X.dims:\n            X = X.rename({sample_name: self.dims_mapping[sample_name][0]})\n\n        ds: DataSet", "        if has_only_one_sample_dim:\n            X = X.rename({sample_name: self.dims_mapping[sample_name][0]})\n\n        ds: DataSet", "MIRROR.state.stack.guarded")
+M("C03", "dataset unstack renames the sample dimension unconditionally", ST, "        if has_only_one_sample_dim and sample_name in X.dims:\n            X = X.rename({sample_name: self.dims_mapping[sample_name][0]})\n\n        ds: DataSet", "        if has_only_one_sample_dim:\n            X = X.rename({sample_name: self.dims_mapping[sample_name][0]})\n\n        ds: DataSet", "MIRROR.unstack.guarded")
+B("C02", "dataset unstack guard nested", ST, "        if has_only_one_sample_dim and sample_name in X.dims:\n            X = X.rename({sample_name: self.dims_mapping[sample_name][0]})\n\n        ds: DataSet", "        if sample_name in X.dims:\n            if has_only_one_sample_dim:\n                X = X.rename({sample_name: self.dims_mapping[sample_name][0]})\n\n        ds: DataSet")
+M("C07", "transform stacks a Dataset as it comes", ST, "        if self.vars_in:\n            X = X[list(self.vars_in)]\n            X = X.assign(\n                {name: X[name].transpose(*dims) for name, dims in self.vars_in.items()}\n            )\n", "", "LAYOUT.stack.dataset_layout")
+M("C02", "transform stacks a Dataset as it comes", ST, "        if self.vars_in:\n            X = X[list(self.vars_in)]\n            X = X.assign(\n                {name: X[name].transpose(*dims) for name, dims in self.vars_in.items()}\n            )\n", "", "MIRROR.state.stack.dataset_layout")
+M("C13", "dims of the fitted data stored raw", ST, "        self.dims_in = tuple(X.dims)\n", "        self.dims_in = X.dims\n", "SERIAL.plain")
+B("C13", "dims of the fitted data stored as a list", ST, "        self.dims_in = tuple(X.dims)\n", "        self.dims_in = list(X.dims)\n")
+M("C16", "pattern un-whitening delegated to the data map", WH, '            comps_pc_space = X.rename({self.feature_name: dummy_dim})\n            VS = self.Tinv.conj().T\n            VS = VS.rename({"mode": dummy_dim})\n            return xr.dot(VS, comps_pc_space, dims=dummy_dim)\n', '            comps = self.inverse_transform_data(X.rename({"mode": dummy_dim}))\n            comps = comps.rename({dummy_dim: "mode"})\n            return comps.transpose(self.feature_name, "mode")\n', "ADJOINT.maps.adjoint")
+B("C16", "pattern un-whitening delegated to the data map with conjugation", WH, '            comps_pc_space = X.rename({self.feature_name: dummy_dim})\n            VS = self.Tinv.conj().T\n            VS = VS.rename({"mode": dummy_dim})\n            return xr.dot(VS, comps_pc_space, dims=dummy_dim)\n', '            comps = self.inverse_transform_data(X.conj().rename({"mode": dummy_dim})).conj()\n            comps = comps.rename({dummy_dim: "mode"})\n            return comps.transpose(self.feature_name, "mode")\n')
+M("C11", "sign folded into the rotation matrix before the re-sort", CR, '        RinvT = RinvT.rename({"mode_n": "mode"})\n\n        scaling', '        RinvT = RinvT.rename({"mode_n": "mode"})\n        RinvT = RinvT * self.data["modes_sign"]\n\n        scaling', "SIGN.group.transform")
+M("C20", "member model inherits the model's settings through a ** dictionary", BOOT, "                n_modes=n_modes,\n                standardize=False,\n", '                n_modes=n_modes,\n                **{key: model_params[key] for key in ("center", "solver")},\n                standardize=False,\n', "MEMBER.config")
+B("C20", "member model inherits the solver through a ** dictionary", BOOT, "                n_modes=n_modes,\n                standardize=False,\n", '                n_modes=n_modes,\n                **{key: model_params[key] for key in ("solver", "random_state")},\n                standardize=False,\n')
